@@ -157,8 +157,8 @@ def run(ctx):
     # in-situ corpus (also gives real CFGs)
     import df_corpus, pool
 
-    progs = df_corpus.programs(ctx.seed, ctx.pick(60, 1500))
-    pols = ["native", "min", "max", "fifo", "lifo", "rand"]
+    progs = df_corpus.programs(ctx.seed, ctx.pick(30, 1500))
+    pols = ctx.pick(["native", "lifo", "rand"], ["native", "min", "max", "fifo", "lifo", "rand"])
     jobs = [(n, s, p, ctx.seed + i) for i, (n, s) in enumerate(progs) for p in pols]
     ctx.log(f"in-situ: {len(progs)} programs x {len(pols)} policies")
     res = pool.map_jobs(insitu_job, jobs, chunksize=8)
@@ -210,9 +210,9 @@ def run(ctx):
     ctx.log(f"model exploration done: {len(wrong)} (graph, analysis) pairs where some schedule misses the path solution")
 
     # ---- 2. binding ---------------------------------------------------------------------------
-    sample = fam[:: max(1, len(fam) // ctx.pick(150, 1500))] + rgraphs[: ctx.pick(150, 2500)]
+    sample = fam[:: max(1, len(fam) // ctx.pick(60, 1500))] + rgraphs[: ctx.pick(80, 2500)]
     runs_a = real_runs_abstract(sample, ctx.seed, ctx.pick(3, 8))
-    small = [g for g in sample if g["n"] <= 3][: ctx.pick(40, 400)]
+    small = [g for g in sample if g["n"] <= 3][: ctx.pick(15, 400)]
     base = len(sample)
     for i, g in enumerate(small):
         for mode in ("live", "assign"):
